@@ -173,6 +173,10 @@ class Ctx:
         self.max_decisions = max_decisions
         self.feas_timeout_ms = feas_timeout_ms
         self.track_poison = track_poison
+        # sqrt_guarded (harness option, default off): constrain v = sqrt(a) only where a >= 0.  With the default unconditional definition
+        # (v >= 0, v*v == a) a negative argument is an unsatisfiable path, so NaN tracking does NOT see sqrt of a negative number; turning
+        # the guard on everywhere was tried and costs most of the staged proofs (C02: 335 of 640 discharged instead of 429 of 484).
+        self.sqrt_guarded = False
         self.stubs = set()
         self.concretizations = []
         self.name = name
